@@ -336,6 +336,7 @@ func (tree *ParserT) parseStatement(exec bool) error {
 					return err
 				}
 				appendToParam(tree, value...)
+				tree.statement.canHaveZeroLenStr = true
 			default:
 				appendToParam(tree, r)
 			}
